@@ -32,6 +32,7 @@ type ObRecord struct {
 	Decisive bool   `json:"decisive,omitempty"` // a refutation by this back end counts even without a model (sound may-analysis)
 	ReplayOutcome string `json:"replay_outcome,omitempty"`
 	Trivial bool `json:"trivial,omitempty"` // syntactically true clause kept for its name
+	Stale   string `json:"stale,omitempty"` // the function's contract names identifiers the function does not have: undecided, never an alarm
 }
 
 // Job is one unit of checking work contributing records to a property.
@@ -265,6 +266,13 @@ func (ctx *checkCtx) runSymbolic() *JobResult {
 			if o.Status != "proved" {
 				rec.Detail = firstLines(o.Output, 4)
 			}
+			if len(r.Stale) > 0 && o.Status != "proved" && !o.Cover {
+				rec.Stale = strings.Join(r.Stale, ", ")
+				rec.Status = "unknown"
+				rec.Detail = "stale contract: it names " + rec.Stale + ", which " + r.Key + " does not have (renamed?); " + rec.Detail
+				jr.Records = append(jr.Records, rec)
+				continue
+			}
 			jr.Records = append(jr.Records, rec)
 			if st, inBase := bprop[o.Name]; o.Status == "refuted" && !o.Cover && inBase && st != "proved" && !ctx.update {
 				// already failing when the baseline was taken (triaged then):
@@ -307,6 +315,7 @@ func (ctx *checkCtx) report(total *JobResult, update, verbose bool, start time.T
 	seen := map[string]bool{}
 	vanishedFns := map[string]bool{}
 	newFailing := map[string][]*ObRecord{}
+	staleFns := map[string]string{}
 
 	replayDir := filepath.Join(outDir(), "replays", ctx.prop)
 	knownCount := map[string]int{}
@@ -353,6 +362,12 @@ func (ctx *checkCtx) report(total *JobResult, update, verbose bool, start time.T
 			byBackend[r.Backend]["count"]++
 			byBackend[r.Backend]["secs"] += r.Secs
 		}
+		if r.Stale != "" && r.Status != "proved" {
+			undecided++
+			undecidedNames = append(undecidedNames, r.Name)
+			staleFns[r.Fn] = r.Stale
+			continue
+		}
 		switch r.Status {
 		case "proved", "exhaustive":
 			discharged++
@@ -378,6 +393,9 @@ func (ctx *checkCtx) report(total *JobResult, update, verbose bool, start time.T
 				}
 			}
 		}
+	}
+	for fn, ids := range staleFns {
+		knownLines = append(knownLines, fmt.Sprintf("STALE-CONTRACT: property=%s the contract of %s names %s, which the function does not have (renamed?): its open obligations are undecided in this run, not violations", ctx.prop, fn, ids))
 	}
 	for what, n := range knownCount {
 		extra := ""
